@@ -1,6 +1,7 @@
 //! Property monitors. Each `cNN::run(cfg) -> Report`.
 pub mod honest;
 pub mod late;
+pub mod taint;
 pub mod c01;
 pub mod c02;
 pub mod c03;
